@@ -13,6 +13,7 @@ EXPLANATION = (
     "http_version(); there is exactly one such site in the crate and it is outside any cycle of the "
     "header parser; Headers.expect is only ever set to true, under the Expect arm with the trimmed "
     "value == \"100-continue\"; the server turns to OUT interest when a read leaves output pending. "
+    "the Expect arm is selected by the lower-cased, trimmed header name; a queued response is discarded only by clear_write_buffer. "
     "Decides these clauses; exactly-once over all segmentations is not decided."
 )
 TRUSTED = ["VecDeque::push_back"]
